@@ -7,7 +7,7 @@ PY="${VERIF_PYTHON:-/venv/bin/python}"
 mkdir -p "$here/.work"
 "$PY" "$here/harness/translate.py" --repo "${OFX_REPO:-/repo}"
 cd "$here/lean"
-lake build OfxModel driver OfxProofs
+lake build OfxModel driver OfxProofs TieAudit
 # non-vacuity witness modules (class-specific examples; a failure here is a note in the evidence, not an error)
 W=$("$PY" -c "import json;d=json.load(open('proofs_index.json'));print(' '.join(sorted({m for e in d.values() for m in e.get('witness_modules', [])})))")
 [ -z "$W" ] || lake build $W || echo "note: a witness module does not build (see DESIGN.md 13.6)"
